@@ -14,6 +14,7 @@
 package c05
 
 import (
+	"context"
 	"encoding/json"
 	"fmt"
 	"math/rand"
@@ -24,9 +25,13 @@ import (
 	"testing"
 	"time"
 
+	"github.com/gogo/protobuf/types"
 	"github.com/influxdata/influxdb/models"
 	"github.com/influxdata/influxdb/query"
 	"github.com/influxdata/influxdb/services/meta"
+	"github.com/influxdata/influxdb/services/storage"
+	"github.com/influxdata/influxdb/storage/reads/datatypes"
+	"github.com/influxdata/influxdb/tsdb/cursors"
 	"github.com/influxdata/influxql"
 	"pgregory.net/rapid"
 
@@ -131,6 +136,8 @@ func genPlan(t *rapid.T) interface{} {
 		"SELECT sum(u), count(s) FROM m0, m1",
 		"SELECT s, bo FROM m1",
 		"SELECT last(s), first(bo) FROM m0 GROUP BY a",
+		"@storage.ReadFilter",
+		"@storage.ReadFilter",
 		"SHOW MEASUREMENTS",
 		"SHOW TAG KEYS",
 		"SHOW TAG VALUES WITH KEY = a",
@@ -227,7 +234,97 @@ func load(run *core.Run, c *clustersim.Cluster, pts []point) bool {
 	return true
 }
 
+// execStorage runs a storage read (what the read service / flux use) over the
+// whole time range through the node's cluster store and renders every series
+// with its points; cursors of one series coming from different shards or
+// nodes are concatenated in time order.
+func execStorage(n *clustersim.Node) (string, error) {
+	src, err := types.MarshalAny(&storage.ReadSource{Database: storesim.DB, RetentionPolicy: storesim.RP})
+	if err != nil {
+		return "", err
+	}
+	rs, err := n.CS.ReadFilter(context.Background(), &datatypes.ReadFilterRequest{ReadSource: src, Range: datatypes.TimestampRange{Start: t0.UnixNano(), End: t0.Add(24 * time.Hour).UnixNano()}})
+	if err != nil {
+		return "", err
+	}
+	if rs == nil {
+		return "", nil
+	}
+	defer rs.Close()
+	type tv struct {
+		t int64
+		v string
+	}
+	rows := map[string][]tv{}
+	for rs.Next() {
+		key := rs.Tags().String()
+		cur := rs.Cursor()
+		if cur == nil {
+			continue
+		}
+		switch c := cur.(type) {
+		case cursors.FloatArrayCursor:
+			for a := c.Next(); a.Len() > 0; a = c.Next() {
+				for i := range a.Timestamps {
+					rows[key] = append(rows[key], tv{a.Timestamps[i], fmt.Sprint(a.Values[i])})
+				}
+			}
+		case cursors.IntegerArrayCursor:
+			for a := c.Next(); a.Len() > 0; a = c.Next() {
+				for i := range a.Timestamps {
+					rows[key] = append(rows[key], tv{a.Timestamps[i], fmt.Sprint(a.Values[i])})
+				}
+			}
+		case cursors.UnsignedArrayCursor:
+			for a := c.Next(); a.Len() > 0; a = c.Next() {
+				for i := range a.Timestamps {
+					rows[key] = append(rows[key], tv{a.Timestamps[i], fmt.Sprint(a.Values[i])})
+				}
+			}
+		case cursors.StringArrayCursor:
+			for a := c.Next(); a.Len() > 0; a = c.Next() {
+				for i := range a.Timestamps {
+					rows[key] = append(rows[key], tv{a.Timestamps[i], fmt.Sprintf("%q", a.Values[i])})
+				}
+			}
+		case cursors.BooleanArrayCursor:
+			for a := c.Next(); a.Len() > 0; a = c.Next() {
+				for i := range a.Timestamps {
+					rows[key] = append(rows[key], tv{a.Timestamps[i], fmt.Sprint(a.Values[i])})
+				}
+			}
+		}
+		if err := cur.Err(); err != nil {
+			cur.Close()
+			return "", err
+		}
+		cur.Close()
+	}
+	if err := rs.Err(); err != nil {
+		return "", err
+	}
+	keys := make([]string, 0, len(rows))
+	for k := range rows {
+		keys = append(keys, k)
+	}
+	sort.Strings(keys)
+	var out []string
+	for _, k := range keys {
+		r := rows[k]
+		sort.Slice(r, func(i, j int) bool { return r[i].t < r[j].t })
+		var s []string
+		for _, x := range r {
+			s = append(s, fmt.Sprintf("%d=%s", x.t, x.v))
+		}
+		out = append(out, k+": "+strings.Join(s, " "))
+	}
+	return strings.Join(out, "\n"), nil
+}
+
 func execStmt(n *clustersim.Node, stmt string) (string, error) {
+	if stmt == "@storage.ReadFilter" {
+		return execStorage(n)
+	}
 	q, err := influxql.ParseQuery(stmt)
 	if err != nil {
 		return "", fmt.Errorf("harness: parse %q: %v", stmt, err)
@@ -411,7 +508,11 @@ func exec(run *core.Run, pl interface{}) {
 		for _, n := range c.Nodes {
 			n.Store.TakeServed()
 		}
-		run.Op(strings.Fields(stmt)[0] + strings.Fields(stmt)[1])
+		if f := strings.Fields(stmt); len(f) > 1 {
+			run.Op(f[0] + f[1])
+		} else {
+			run.Op(stmt)
+		}
 		want, rerr := execStmt(ref.Nodes[0], stmt)
 		if rerr != nil {
 			run.Fail("harness-error", "", "reference failed for %q: %v", stmt, rerr)
@@ -451,6 +552,20 @@ func exec(run *core.Run, pl interface{}) {
 			if (f.Kind == "error-reply" || f.Kind == "shards-disabled") && len(c.Node(id).Store.TakeServed()) > 0 {
 				askedFaulty = true
 			}
+		}
+		disabledSomewhere := false
+		for _, f := range kindsByID {
+			if f.Kind == "shards-disabled" {
+				disabledSomewhere = true
+			}
+		}
+		if r.out != want && disabledSomewhere && strings.HasPrefix(stmt, "@storage") {
+			// Same root cause on the storage read path: a node whose shards
+			// are disabled builds its series cursor over the shards it can
+			// open (tsdb.Store.Shards / newIndexSeriesCursor) and answers
+			// with what is left, without an error.
+			run.Fail("silently-incomplete-or-wrong-result", "storage-read-owner-with-disabled-shards-answers-with-nothing", "storage ReadFilter on node %d returned success but differs from the same read over the union of the data; a node whose shards are disabled took part (faults: %s; owners: %s)\n got: %s\nwant: %s", p.Coord, describeFaults(p), describeOwners(data), clip(r.out), clip(want))
+			continue
 		}
 		if r.out != want && askedFaulty && strings.HasPrefix(stmt, "SELECT") {
 			// An owner that is up but cannot read its shards was asked. The
@@ -497,6 +612,9 @@ func exec(run *core.Run, pl interface{}) {
 // part of its rows or with a different aggregate is something else.
 func unservableSite(stmt, got, want string) string {
 	w := strings.Fields(stmt)
+	if strings.HasPrefix(stmt, "@storage") {
+		return "storage-read"
+	}
 	if w[0] == "SHOW" {
 		kind := "SHOW " + w[1]
 		if len(w) > 2 && (w[1] == "TAG" || w[1] == "FIELD") {
